@@ -40,7 +40,17 @@
         inhab P' n [] v (intersect_types P a b)          (P' = registry after the call)
      complement_keeps : inhab P n [] v o -> ~ inhab P n [] v nr ->
         inhab P' n [] v (compute_complement P o nr)
-        (both false on recursive unions: F24; not proved on the cycle-free fragment either —
+        (both false on recursive unions: F24; not proved on the cycle-free fragment either.
+         Sizing of the `_partial` proofs for first-order cycle-free operands: (1) every narrowing
+         function only extends the registry (`extends`, by mutual induction on fuel through the
+         inline variant / field loops), so `inhab_monotone` carries memberships forward; (2)
+         union_type_ids keeps every value of every piece (flatten, dedup, singleton unwrapping; needs
+         env_indep on the result); (3) intersect_pair: same id / same leaf / tuple arm field-wise by
+         the induction hypothesis, a field intersection equal to `never` contradicts membership, the
+         default arm returns `never` only when types_overlap is false, which overlap_complete_partial
+         turns into disjointness; (4) subtract_one: the `is_compatible` shortcut is sound by
+         compat_sound_partial, the tuple arm keeps [A0..Ai\bi..An] for a field where the value is
+         outside bi.  About 600-800 lines, mostly registry threading; not done —
          validated by the oracle only) *)
 From Quiver Require Import Base Types Rel Sem SemProofs RelProofs OverlapProofs TypesProofs Witness TransCheck TransThm.
 From Coq Require Import Arith.
